@@ -68,7 +68,8 @@ class StmtMixin:
             rs.assume(z3.Not(h.safe))
             rs.tag("%s@%s.%d" % (h.kind, so, i))
             outs.append(Outcome("raise", rs, exc=h.kind, val=h))
-            prior.append(h.safe)
+            if not h.may:
+                prior.append(h.safe)
         for p in prior:
             st.assume(p)
         self.hz = []
